@@ -1,0 +1,157 @@
+//go:build verif
+
+package policer
+
+import (
+	"context"
+	"errors"
+	"io"
+	"strconv"
+	"sync"
+
+	iec "github.com/nspcc-dev/neofs-node/internal/ec"
+	objectcore "github.com/nspcc-dev/neofs-node/pkg/core/object"
+	"github.com/nspcc-dev/neofs-node/pkg/local_object_storage/engine"
+	"github.com/nspcc-dev/neofs-node/pkg/services/replicator"
+	cid "github.com/nspcc-dev/neofs-sdk-go/container/id"
+	"github.com/nspcc-dev/neofs-sdk-go/netmap"
+	"github.com/nspcc-dev/neofs-sdk-go/object"
+	oid "github.com/nspcc-dev/neofs-sdk-go/object/id"
+	"go.uber.org/zap"
+)
+
+// VerifEnv is a scripted environment of Policer passes used by the external
+// verification harness: network, remote HEAD answers and local storage are
+// fakes driven by the fields below, the decision logic is the real one.
+type VerifEnv struct {
+	// Network.GetNodesForObject result.
+	NodeLists [][]netmap.NodeInfo
+	RepRules  []uint
+	// (data, parity) part numbers per EC rule.
+	ECRules [][2]uint8
+	NetErr  error
+	// Network.IsLocalNodePublicKey / IsLocalNodeInNetmap.
+	LocalKey []byte
+	InNetmap bool
+
+	// Head answers a remote HEAD request for the object itself (error nil means the
+	// header was read).
+	Head func(node netmap.NodeInfo, addr oid.Address) error
+	// Replicator handles replication tasks.
+	Replicator interface {
+		HandleTask(context.Context, replicator.Task, replicator.TaskResult)
+	}
+
+	mtx sync.Mutex
+	// Deleted records localStorage.Delete calls in order: true for the
+	// "redundant" garbage mark, false for the default one.
+	Deleted []bool
+	// ShardDrops records localStorage.DeleteRedundantCopies calls.
+	ShardDrops [][]string
+}
+
+// VerifNew builds Policer working in the given scripted environment.
+func VerifNew(env *VerifEnv) *Policer {
+	c := defaultCfg()
+	c.log = zap.NewNop()
+	c.network = verifNetwork{env}
+	c.apiConns = verifConns{env}
+	c.localStorage = verifStorage{env}
+	c.replicator = env.Replicator
+	return &Policer{cfg: c}
+}
+
+// VerifProcessObject runs one pass of the policy check for the local object.
+func (p *Policer) VerifProcessObject(ctx context.Context, obj objectcore.AddressWithAttributes) {
+	p.processObject(ctx, obj)
+}
+
+// VerifECAttributes returns values of object attributes carrying EC rule and
+// part indexes in the form expected by VerifProcessObject.
+func VerifECAttributes(ruleIdx, partIdx int) (string, string) {
+	return strconv.Itoa(ruleIdx), strconv.Itoa(partIdx)
+}
+
+type verifNetwork struct{ *VerifEnv }
+
+func (x verifNetwork) IsLocalNodeInNetmap() bool { return x.InNetmap }
+
+func (x verifNetwork) IsLocalNodePublicKey(k []byte) bool { return string(k) == string(x.LocalKey) }
+
+func (x verifNetwork) GetNodesForObject(oid.Address) ([][]netmap.NodeInfo, []uint, []iec.Rule, error) {
+	if x.NetErr != nil {
+		return nil, nil, nil, x.NetErr
+	}
+	var ecRules []iec.Rule
+	for _, r := range x.ECRules {
+		ecRules = append(ecRules, iec.Rule{DataPartNum: r[0], ParityPartNum: r[1]})
+	}
+	return x.NodeLists, x.RepRules, ecRules, nil
+}
+
+type verifConns struct{ e *VerifEnv }
+
+// requests of other EC parts by parent ID (sibling health check) are always
+// answered with a correct header: the scripted answers are about the local
+// object itself.
+func (x verifConns) headObject(_ context.Context, node netmap.NodeInfo, addr oid.Address, _ bool, xs []string) (object.Object, error) {
+	if len(xs) == 4 {
+		var parent object.Object
+		parent.SetContainerID(addr.Container())
+		parent.SetID(addr.Object())
+		var hdr object.Object
+		hdr.SetContainerID(addr.Container())
+		hdr.SetParent(&parent)
+		hdr.SetParentID(addr.Object())
+		hdr.SetAttributes(object.NewAttribute(xs[0], xs[1]), object.NewAttribute(xs[2], xs[3]))
+		return hdr, nil
+	}
+	return object.Object{}, x.e.Head(node, addr)
+}
+
+func (x verifConns) GetRange(context.Context, netmap.NodeInfo, cid.ID, oid.ID, uint64, uint64, []string) (io.ReadCloser, error) {
+	return nil, errors.New("verif: unexpected remote GetRange call")
+}
+
+type verifStorage struct{ e *VerifEnv }
+
+func (x verifStorage) ListWithCursor(context.Context, uint32, *engine.Cursor, ...string) ([]objectcore.AddressWithAttributes, *engine.Cursor, error) {
+	return nil, nil, engine.ErrEndOfListing
+}
+
+func (x verifStorage) Delete(_ context.Context, _ oid.Address, mark engine.GarbageMark) error {
+	x.e.mtx.Lock()
+	x.e.Deleted = append(x.e.Deleted, mark == engine.GarbageMarkRedundant)
+	x.e.mtx.Unlock()
+	return nil
+}
+
+func (x verifStorage) DeleteRedundantCopies(_ context.Context, _ oid.Address, shards []string) error {
+	x.e.mtx.Lock()
+	x.e.ShardDrops = append(x.e.ShardDrops, shards)
+	x.e.mtx.Unlock()
+	return nil
+}
+
+func (x verifStorage) Put(context.Context, *object.Object, []byte) error {
+	return errors.New("verif: unexpected local Put call")
+}
+
+func (x verifStorage) Head(context.Context, oid.Address, bool) (*object.Object, error) {
+	return nil, errors.New("verif: unexpected local Head call")
+}
+
+func (x verifStorage) HeadECPart(_ context.Context, cnr cid.ID, parent oid.ID, pi iec.PartInfo) (object.Object, error) {
+	var par object.Object
+	par.SetContainerID(cnr)
+	par.SetID(parent)
+	var hdr object.Object
+	hdr.SetContainerID(cnr)
+	hdr.SetParent(&par)
+	hdr.SetParentID(parent)
+	return hdr, nil
+}
+
+func (x verifStorage) GetRange(context.Context, oid.Address, uint64, uint64) ([]byte, error) {
+	return nil, errors.New("verif: unexpected local GetRange call")
+}
